@@ -271,8 +271,19 @@ def run_replay(pid, path):
     cmd = [REPLAY_PY, '-W', 'ignore', os.path.join(VERIF, 'harness', 'replay.py'), pid, path]
     env = dict(os.environ)
     env['PYTHONPATH'] = os.environ.get('PYTOUGH_REPO', '/repo')
+    # a failure recorded as non-termination is reproduced when the real code does not return
+    # within a minute (its replay data says so: {"expect": "nontermination"})
+    expect_hang = False
     try:
-        p = subprocess.run(cmd, capture_output=True, text=True, timeout=600, env=env, cwd=VERIF)
+        import json as _json
+        d = _json.load(open(path))
+        d = d.get('data', d)
+        expect_hang = isinstance(d, dict) and d.get('expect') == 'nontermination'
+    except Exception:
+        pass
+    try:
+        p = subprocess.run(cmd, capture_output=True, text=True, timeout=60 if expect_hang else 600, env=env, cwd=VERIF)
     except subprocess.TimeoutExpired:
+        if expect_hang: return True, 'the real code did not return within 60 s (non-termination reproduced)'
         return False, 'replay timed out'
     return p.returncode == 0, (p.stdout + p.stderr)
